@@ -4,6 +4,7 @@ import (
 	"fmt"
 	"sort"
 	"strings"
+	"sync"
 	"time"
 
 	"github.com/anishathalye/porcupine"
@@ -15,6 +16,7 @@ import (
 
 	"verif/internal/lab"
 	"verif/internal/oas"
+	"verif/internal/plugin"
 	"verif/internal/spec"
 )
 
@@ -160,50 +162,63 @@ func c17(c *Ctx) {
 	}
 	orderings := map[string]bool{}
 	totalCalls := 0
+	var mu sync.Mutex
+	type job struct {
+		gmp, par, rep int
+	}
+	var jobs []job
 	for _, gmp := range []int{2, 16} {
 		for _, par := range []int{2, 8, 64} {
 			for rep := 0; rep < reps; rep++ {
-				label := fmt.Sprintf("g%dp%dr%d", gmp, par, rep)
-				caseID := fmt.Sprintf("conc/gomaxprocs=%d/parallel=%d", gmp, par)
-				if !c.Want(caseID) {
-					continue
-				}
-				calls := c17calls(c, label, callsPer)
-				raceLog := fmt.Sprintf("%s/race-c17-%s", c.Scratch, label)
-				burst, order, err := c17run(bin, raceLog, gmp, par, pkg, calls, reg)
-				c.R.Eval(len(calls))
-				if err != nil {
-					c.R.Violate(caseID, "burst-failed", err.Error(), map[string]any{"proto": protoText, "label": label})
-					continue
-				}
-				orderings[order] = true
-				seqRes, _, err := c17run(bin, raceLog+"-seq", gmp, 1, pkg, calls, reg)
-				c.R.Eval(len(calls))
-				if err != nil {
-					c.R.Inconclusive(caseID, "sequential-run-failed:"+err.Error())
-					continue
-				}
-				totalCalls += len(calls)
-				c17check(c, caseID, calls, burst, seqRes, protoText, label)
-				for _, lg := range []string{raceLog, raceLog + "-seq"} {
-					n, reports := lab.RaceReports(lg)
-					c.R.Count("race_reports", n)
-					for _, r := range reports {
-						where := "emitted-code"
-						if strings.Contains(r, "zz_glue.go") && !strings.Contains(r, ".pb.go") {
-							where = "glue"
-						}
-						if where == "glue" || (strings.Contains(r, "lab/labrt") && !strings.Contains(r, "lab/gen/")) {
-							c.R.Harness("race in harness code: " + firstLines(r, 12))
-							continue
-						}
-						c.R.Violate(caseID, "race", raceSummary(r), map[string]any{"proto": protoText, "report": r, "label": label})
-					}
-				}
-				c.R.Decided(caseID)
+				jobs = append(jobs, job{gmp, par, rep})
 			}
 		}
 	}
+	// bursts are independent (own child processes, own race logs): run a few side by side, which
+	// also varies the scheduling pressure each burst sees
+	plugin.Parallel(len(jobs), 4, func(ji int) {
+		gmp, par, rep := jobs[ji].gmp, jobs[ji].par, jobs[ji].rep
+		label := fmt.Sprintf("g%dp%dr%d", gmp, par, rep)
+		caseID := fmt.Sprintf("conc/gomaxprocs=%d/parallel=%d", gmp, par)
+		if !c.Want(caseID) {
+			return
+		}
+		calls := c17calls(c, label, callsPer)
+		raceLog := fmt.Sprintf("%s/race-c17-%s", c.Scratch, label)
+		burst, order, err := c17run(bin, raceLog, gmp, par, pkg, calls, reg)
+		c.R.Eval(len(calls))
+		if err != nil {
+			c.R.Violate(caseID, "burst-failed", err.Error(), map[string]any{"proto": protoText, "label": label})
+			return
+		}
+		seqRes, _, err := c17run(bin, raceLog+"-seq", gmp, 1, pkg, calls, reg)
+		c.R.Eval(len(calls))
+		if err != nil {
+			c.R.Inconclusive(caseID, "sequential-run-failed:"+err.Error())
+			return
+		}
+		mu.Lock()
+		orderings[order] = true
+		totalCalls += len(calls)
+		mu.Unlock()
+		c17check(c, caseID, calls, burst, seqRes, protoText, label)
+		for _, lg := range []string{raceLog, raceLog + "-seq"} {
+			n, reports := lab.RaceReports(lg)
+			c.R.Count("race_reports", n)
+			for _, r := range reports {
+				where := "emitted-code"
+				if strings.Contains(r, "zz_glue.go") && !strings.Contains(r, ".pb.go") {
+					where = "glue"
+				}
+				if where == "glue" || (strings.Contains(r, "lab/labrt") && !strings.Contains(r, "lab/gen/")) {
+					c.R.Harness("race in harness code: " + firstLines(r, 12))
+					continue
+				}
+				c.R.Violate(caseID, "race", raceSummary(r), map[string]any{"proto": protoText, "report": r, "label": label})
+			}
+		}
+		c.R.Decided(caseID)
+	})
 	c.R.Set("distinct_handler_entry_orderings", len(orderings))
 	c.R.Set("calls_checked", totalCalls)
 	c.R.Sample(map[string]any{"case": "conc/gomaxprocs=16/parallel=64", "calls_per_burst": callsPer, "routes": len(c17routes), "monitors": []string{"race detector", "exactly-once", "result=f(request)", "header isolation", "sequential agreement", "porcupine"}})
